@@ -3,6 +3,29 @@ From Verif.Base Require Import Tactics.
 From Verif.C08 Require Import Extracted Model Spec.
 Local Open Scope N_scope.
 
+Lemma u32_add_some a b c : u32_add a b = Some c <-> (c = a + b /\ a + b < U32).
+Proof.
+  unfold u32_add. cbv zeta. destruct (a + b <? U32) eqn:E; split.
+  - intro H. inv H. split; [reflexivity|lia].
+  - intros [-> _]. reflexivity.
+  - discriminate.
+  - intros [_ H]. lia.
+Qed.
+
+Lemma u32_add_none a b : u32_add a b = None <-> U32 <= a + b.
+Proof.
+  unfold u32_add. cbv zeta. destruct (a + b <? U32) eqn:E; split; try discriminate; try lia. reflexivity.
+Qed.
+
+Lemma u32_sub_some a b c : u32_sub a b = Some c <-> (c = a - b /\ b <= a).
+Proof.
+  unfold u32_sub. destruct (b <=? a) eqn:E; split.
+  - intro H. inv H. split; [reflexivity|lia].
+  - intros [-> _]. reflexivity.
+  - discriminate.
+  - intros [_ H]. lia.
+Qed.
+
 Lemma le32_length n : length (le32 n) = 4%nat.
 Proof. reflexivity. Qed.
 
